@@ -1583,6 +1583,7 @@ def collect_objects(ns, top_code):
                 c = o()
                 out.append(("coroutine", c))
         elif isinstance(o, type):
+            out.append(("class", o))  # dis.dis() takes classes (it walks their functions); get_instructions does not
             for an in sorted(vars(o)):
                 a = vars(o)[an]
                 if isinstance(a, types.FunctionType):
@@ -1725,6 +1726,25 @@ def cmd_stdapi(args):
                 acc.count("skipped_large_code")
                 continue
             nobj += 1
+            # acceptance of the printing functions: whatever dis.dis / dis.show_code take, the same-named xdis.std function takes
+            # (the text itself is xdis's own format and is C12's business)
+            for fname in ("dis", "show_code"):
+                buf = io.StringIO()
+                try:
+                    getattr(dis, fname)(o, file=buf)
+                except Exception:
+                    acc.count("dis_%s_rejects_object" % fname)
+                    continue
+                acc.evaluations += 1
+                acc.count("c20_printing_function_calls")
+                buf2 = io.StringIO()
+                try:
+                    getattr(xstd, fname)(o, file=buf2)
+                    if buf.getvalue().strip() and not buf2.getvalue().strip():
+                        acc.mismatch("C20|h%s|%s()|%s|prints-nothing" % (H, fname, label), where=os.path.basename(src))
+                except Exception as e:
+                    acc.mismatch("C20|h%s|%s()|%s|raises:%s" % (H, fname, label, type(e).__name__), where=os.path.basename(src),
+                                 msg=str(e)[:160])
             fls = [None] + ([rng.choice([1, 100, 10 ** 6])] if nobj % 3 == 0 else [])
             for fl in fls:
                 kw = {} if fl is None else {"first_line": fl}
